@@ -110,9 +110,10 @@ class Spy:
             line = 'MT %d %s' % (vid, ','.join(str(int(e)) for e in sorted(msg.effect_ids)))
             key = (vid, set(int(e) for e in msg.effect_ids))
         else:
-            tg = [getattr(x, '_vid', None) for x in msg.tgt_items]
+            # a fleet mate without a ship is announced as target `None` by the fleet handlers: not an item, nothing to record
+            tg = [getattr(x, '_vid', None) for x in msg.tgt_items if x is not None]
             if any(v is None for v in tg):
-                return            # target outside the world (never generated)
+                raise C.InfraError('message names a target without serial: %r' % (msg.tgt_items,))
             line = '%s %d %d %s' % ('MA' if t is EffectApplied else 'MN', vid, int(msg.effect_id),
                                     ','.join(map(str, tg)) or '-')
             key = (vid, int(msg.effect_id))
